@@ -5,6 +5,7 @@ import TypstyleModel.Proofs.CarriesRaw
 import TypstyleModel.Proofs.CarriesDot
 import TypstyleModel.Proofs.CarriesMath
 import TypstyleModel.Proofs.CarriesImport
+import TypstyleModel.Proofs.CarriesTable
 /-! The knot (route M): **for every tree of the covered fragment, the printed family carries exactly
 what the tree prescribes** — code tokens, comments, prose, literals and verbatim text — with no
 per-case certificate: by induction over the fuel of the knot, using the per-construct theorems.
@@ -116,7 +117,9 @@ def listChildrenOK (k : Kind) (cs : List ANode) : Bool :=
       -- callee and arguments; `table`/`grid` are laid out by other code
       (match cs with
         | [callee, args] => chainHeadOK callee && args.kind == .args &&
-            !(callee.kind == .ident && (callee.text == "table" || callee.text == "grid"))
+            -- `table`/`grid`: laid out by other code, which is covered for parenthesised arguments
+            (!(callee.kind == .ident && (callee.text == "table" || callee.text == "grid")) ||
+              (args.children.head?.map (·.kind == .leftParen)).getD false)
         | _ => false)
   | _ => false
 
@@ -660,6 +663,73 @@ theorem args_frag (e : Env) (r : Rec) (hr : RecOK r Q) (ctx : Ctx) (hctx : NM ct
       refine Post.bind (Q := fun x => Carries x (specAllL cs)) (Post.bind (hblocks cs (fun b hb => hb) hch) (fun docs hd => Post.pure hd)) (fun x hx => Post.pure ?_)
       simpa using Carries.nil.app hx
 
+/-- The shape of a parenthesised argument list of the fragment: `( items )` then trailing content blocks. -/
+theorem argsParen_shape (cs : List ANode) (a : Attrs) (hq : inFrag (.inner .args cs a) = true)
+    (hp : (cs.head?.map (·.kind == .leftParen)).getD false = true) :
+    ∃ rp blocks, cs.dropWhile (·.kind != .rightParen) = rp :: blocks ∧ rp.kind = .rightParen ∧ rp ∈ cs ∧
+      (∀ b ∈ blocks, b ∈ cs) ∧ blocks.all isBlockShape = true ∧
+      (∀ x ∈ cs.takeWhile (·.kind != .rightParen), inFrag x = true ∧ (isArg x = true ∨ isPassable x = true)) := by
+  rw [inFrag_inner_ne _ _ _ (by decide)] at hq
+  simp only [Bool.and_eq_true] at hq
+  have hch : listChildrenOK .args cs = true := by
+    have h1 := hq.1
+    simp [Kind.isFragFlow, Kind.isFragElem, Kind.isFragList, Kind.isFragWrap, Kind.isFragItem, Kind.isImportPart] at h1
+    exact h1
+  simp only [listChildrenOK, hp, ↓reduceIte, Bool.and_eq_true] at hch
+  obtain ⟨hpre, hpost⟩ := hch
+  cases hdw : cs.dropWhile (·.kind != .rightParen) with
+  | nil => rw [hdw] at hpost; simp at hpost
+  | cons rp blocks =>
+    rw [hdw] at hpost
+    have hrpk : rp.kind = .rightParen := by
+      have := List.head_dropWhile_not (·.kind != .rightParen) (l := cs) (by rw [hdw]; simp)
+      simp only [hdw, List.head_cons] at this
+      simpa using this
+    refine ⟨rp, blocks, rfl, hrpk, (List.dropWhile_sublist _).subset (by rw [hdw]; exact List.mem_cons_self),
+      fun b hb => (List.dropWhile_sublist _).subset (by rw [hdw]; exact List.mem_cons_of_mem _ hb), hpost, ?_⟩
+    intro x hx
+    refine ⟨inFragL_mem hq.2 ((List.takeWhile_sublist _).subset hx), ?_⟩
+    have := List.all_eq_true.mp hpre x hx
+    simpa using this
+
+/-- A parenthesised argument list whose parenthesised part is laid out by `pc`. -/
+theorem argsParen_with (e : Env) (r : Rec) (hr : RecOK r Q) (ctx : Ctx) (hctx : NM ctx) (cs : List ANode) (a : Attrs)
+    (hq : inFrag (.inner .args cs a) = true) (hp : (cs.head?.map (·.kind == .leftParen)).getD false = true)
+    (pc : M Doc) (hpc : Post pc (fun d => Carries d (specAllL (cs.takeWhile (·.kind != .rightParen))))) :
+    Post (do let doc ← pc; pure (doc ++ (← convAdditionalArgs e r ctx (.inner .args cs a) true)))
+      (fun d => Carries d (specAll (.inner .args cs a))) := by
+  obtain ⟨rp, blocks, hdw, hrpk, hrpm, hblm, hpost, _⟩ := argsParen_shape cs a hq hp
+  have hq' := hq
+  rw [inFrag_inner_ne _ _ _ (by decide)] at hq'
+  simp only [Bool.and_eq_true] at hq'
+  rw [specAll_inner .args cs a (by simp [isVerbatimNode, Kind.isExpr]) (by decide)]
+  rw [specAllL_take_drop cs (·.kind != .rightParen), hdw, specAllL_cons,
+    specAll_ignorable rp (inFrag_lex rp (inFragL_mem hq'.2 hrpm)) (by unfold isIgnorable; rw [hrpk]; rfl), Streams.empty_app]
+  refine Post.bind hpc (fun p hpcd => ?_)
+  unfold convAdditionalArgs
+  simp only [ANode.children, ↓reduceIte, hdw]
+  have hfilter : (rp :: blocks).filter (·.kind == .contentBlock) = blocks := by
+    rw [List.filter_cons]
+    have : (rp.kind == .contentBlock) = false := by rw [hrpk]; rfl
+    simp only [this, Bool.false_eq_true, ↓reduceIte]
+    apply List.filter_eq_self.mpr
+    intro b hb
+    exact blockShape_kind b (List.all_eq_true.mp hpost b hb)
+  rw [hfilter]
+  have hblocks : Post (blocks.mapM (convContentBlock e r ctx)) (fun docs => Carries (concatDocs docs) (specAllL blocks)) := by
+    refine Post.mono (Post.mapM blocks (R := fun b d => Carries d (specAll b)) (fun b hb => ?_)) (fun docs h => concatDocs_carries blocks docs h)
+    have hbq := inFragL_mem hq'.2 (hblm b hb)
+    have hshape := List.all_eq_true.mp hpost b hb
+    refine contentBlock_carries e r hr ctx hctx b hshape (inFrag_lex b hbq) (fun c hc => ?_)
+    cases b with
+    | leaf _ _ _ => simp [isBlockShape] at hshape
+    | inner kb cb ab =>
+      have hne : kb ≠ .equation := by intro h; subst h; simp [isBlockShape] at hshape
+      rw [inFrag_inner_ne _ _ _ hne] at hbq
+      simp only [Bool.and_eq_true] at hbq
+      exact inFragL_mem hbq.2 hc
+  exact Post.bind (Post.bind hblocks (fun docs hd => Post.pure hd)) (fun x hx => Post.pure (hpcd.app hx))
+
 theorem exprWithOptionalParen_frag (e : Env) (r : Rec) (hr : RecOK r Q) (ctx : Ctx) (hctx : NM ctx) (x : ANode) (useBraces : Bool)
     (hx : isExpr x = true) (hq : inFrag x = true) :
     Post (exprWithOptionalParen e r ctx x useBraces) (fun d => Carries d (specAll x)) := by
@@ -1154,16 +1224,125 @@ theorem convExpr_frag (e : Env) (r : Rec) (hr : RecOK r Q) (hrM : RecOKM r QM) (
           rw [specAll_inner .funcCall _ a (by simp [isVerbatimNode, hd']) (by decide)]
           refine Post.bind (hr.expr ctx callee hctx hcx hqs.1) (fun dc hdc => ?_)
           have hm : (ctx.mode == LMode.math) = false := by unfold NM at hctx; simpa using hctx
-          have hnt : isTable (.inner .funcCall [callee, args] a) = false := by
-            unfold isTable identFuncName firstWhere
-            simp only [ANode.children, hf1]
-            by_cases hid : callee.kind = .ident
-            · simp only [hid, beq_self_eq_true, ↓reduceIte, Option.some.injEq, Bool.or_eq_false_iff, beq_eq_false_iff_ne]
-              have := htab
-              simp only [hid, beq_self_eq_true, Bool.true_and, Bool.or_eq_false_iff, beq_eq_false_iff_ne] at this
-              exact ⟨fun h => this.1 (Option.some.inj h), fun h => this.2 (Option.some.inj h)⟩
-            · have : (callee.kind == .ident) = false := by simpa using hid
-              simp [this]
+          by_cases htb : isTable (.inner .funcCall [callee, args] a) = true
+          · -- `table` / `grid`
+            have hpar : (args.children.head?.map (·.kind == .leftParen)).getD false = true := by
+              rcases (by simpa using htab : _ ∨ _) with h | h
+              · exfalso
+                unfold isTable identFuncName firstWhere at htb
+                simp only [ANode.children, hf1] at htb
+                by_cases hid : callee.kind = .ident
+                · simp only [hid, beq_self_eq_true, ↓reduceIte, Bool.or_eq_true, beq_iff_eq, Option.some.injEq] at htb
+                  rcases h with hh | hh
+                  · exact hh hid
+                  · rcases htb with h1 | h1
+                    · exact hh.1 h1
+                    · exact hh.2 h1
+                · have : (callee.kind == .ident) = false := by simpa using hid
+                  simp [this] at htb
+              · exact h
+            cases args with
+            | leaf ka ta aa =>
+              simp only [ANode.kind] at hak; subst hak
+              have := hqs.2.1
+              simp [inFrag, Kind.isInnerKind] at this
+            | inner ka acs aa =>
+              simp only [ANode.kind] at hak; subst hak
+              have hqa : inFrag (.inner .args acs aa) = true := hqs.2.1
+              simp only [ANode.children] at hpar
+              obtain ⟨rp, blocks, hdw, hrpk, hrpm, hblm, hpost, hpre_all⟩ := argsParen_shape acs aa hqa hpar
+              have hqa' := hqa
+              rw [inFrag_inner_ne _ _ _ (by decide)] at hqa'
+              simp only [Bool.and_eq_true] at hqa'
+              have hsplitcs : acs = acs.takeWhile (·.kind != .rightParen) ++ rp :: blocks := by
+                rw [← hdw, List.takeWhile_append_dropWhile]
+              have hpu : parenArgsUntyped (.inner .args acs aa) = acs.takeWhile (·.kind != .rightParen) := by
+                unfold parenArgsUntyped
+                simp only [ANode.children]
+                congr 1
+                cases acs with
+                | nil => rfl
+                | cons c0 crest =>
+                  have hc0 : (c0.kind == .leftParen) = true := by simpa using hpar
+                  rw [List.dropWhile_cons]
+                  simp [bne, hc0]
+              unfold convFuncCallArgs hasParenArgs
+              simp only [hm, Bool.false_eq_true, ↓reduceIte, htb, ANode.children, hpar]
+              have harg : ∀ x, Q x → isArg x = true →
+                  Post (convArg e r (ctx.withMode .codeCont) x) (fun d => Carries d (specAll x)) :=
+                fun x hqx hax => convArg_frag e r hr _ (NM.withMode _ (by decide)) x hqx hax
+              have hargs2 := argsParen_with e r hr ctx hctx acs aa hqa hpar
+              cases hft : isFormatableTable (.inner .funcCall [callee, .inner .args acs aa] a) with
+              | none =>
+                simp only
+                refine Post.bind (hargs2 _ ?_) (fun da hda => Post.pure (by simpa [specAllL_cons] using hdc.app hda))
+                have := convParenArgsAsList_carries e r ctx harg (.inner .args acs aa) (by
+                  rw [hpu]
+                  intro x hx
+                  have h1 := hpre_all x hx
+                  refine ⟨inFrag_lex x h1.1, h1.1, ?_⟩
+                  rcases h1.2 with h | h
+                  · exact Or.inl h
+                  · unfold isPassable at h
+                    simp only [Bool.or_eq_true] at h
+                    rcases h with h | h
+                    · exact Or.inr (Or.inl h)
+                    · exact Or.inr (Or.inr h))
+                rw [hpu] at this
+                exact this
+              | some cols =>
+                simp only
+                refine Post.bind (hargs2 _ ?_) (fun da hda => Post.pure (by simpa [specAllL_cons] using hdc.app hda))
+                -- what `is_formatable` accepted
+                have hfmt : (acs.any fun c => isCommentKind c.kind) = false ∧
+                    ∃ b, formatableGo ((acs.takeWhile (·.kind != .rightParen)).filter isArg) false = some b := by
+                  unfold isFormatableTable at hft
+                  split at hft
+                  · rename_i hc
+                    simp only [Bool.and_eq_true] at hc
+                    have hfm := hc.2
+                    unfold isFormatable lastWhere at hfm
+                    simp only [ANode.children, hf2] at hfm
+                    by_cases hnc : (acs.any fun c => isCommentKind c.kind) = true
+                    · simp [hnc] at hfm
+                    · have hnc' : (acs.any fun c => isCommentKind c.kind) = false := by simpa using hnc
+                      simp only [hnc', Bool.false_eq_true, ↓reduceIte] at hfm
+                      rw [hpu] at hfm
+                      refine ⟨hnc', ?_⟩
+                      cases hg : formatableGo ((acs.takeWhile (·.kind != .rightParen)).filter isArg) false with
+                      | none => rw [hg] at hfm; cases hfm
+                      | some b => exact ⟨b, rfl⟩
+                  · cases hft
+                obtain ⟨hnc, b, hform⟩ := hfmt
+                have hPn : ∀ x ∈ acs.takeWhile (·.kind != .rightParen), isArg x = true ∨ isIgnorable x = true := by
+                  intro x hx
+                  rcases (hpre_all x hx).2 with h | h
+                  · exact Or.inl h
+                  · unfold isPassable at h
+                    simp only [Bool.or_eq_true] at h
+                    rcases h with h | h
+                    · exfalso
+                      have hxm : x ∈ acs := (List.takeWhile_sublist _).subset hx
+                      have := List.any_eq_false.mp hnc x hxm
+                      rw [h] at this; exact this rfl
+                    · exact Or.inr h
+                have hrestn : ∀ x ∈ rp :: blocks, (x.kind == .named) = false := by
+                  intro x hx
+                  rcases List.mem_cons.mp hx with rfl | hx'
+                  · rw [hrpk]; rfl
+                  · have := blockShape_kind x (List.all_eq_true.mp hpost x hx')
+                    have hk : x.kind = .contentBlock := by simpa using this
+                    rw [hk]; rfl
+                have hsp := table_split (acs.takeWhile (·.kind != .rightParen)) (rp :: blocks) b
+                  (lexL_of_mem (fun x hx => inFrag_lex x (hpre_all x hx).1)) hPn hrestn hform
+                rw [← hsplitcs] at hsp
+                exact convTable_carries e r ctx harg
+                  (fun x hqx hk => elem_carries e r _ (NM.withMode _ (by decide)) x hqx (by rw [hk]; rfl) false _ (namedProducer_ok e r hr))
+                  _ (.inner .args acs aa) (by unfold lastWhere; simp only [ANode.children]; exact hf2) cols _
+                  (fun x hx => inFragL_mem hqa'.2 (List.mem_filter.mp (List.mem_filter.mp hx).1).1)
+                  (fun x hx => (hpre_all x (List.mem_filter.mp (List.mem_filter.mp hx).1).1).1)
+                  hsp
+          have hnt : isTable (.inner .funcCall [callee, args] a) = false := by simpa using htb
           have heqa : convFuncCallArgs e r ctx (.inner .funcCall [callee, args] a) args = convArgs e r ctx args := by
             unfold convFuncCallArgs convArgs
             simp only [hm, Bool.false_eq_true, ↓reduceIte, hnt]
